@@ -141,7 +141,10 @@ func KeyConsistent(b []byte) error {
 			return 0, nil
 		}
 		if it.Major != refcbor.MBstr {
-			return 0, fmt.Errorf("%s is not a byte string", name)
+			// the property bounds the size of coordinates; a parameter of
+			// another type is not a coordinate and is not judged here
+			_ = name
+			return 0, nil
 		}
 		return len(it.Data), nil
 	}
